@@ -36,7 +36,7 @@ PROPS = {
         "assumptions": ["GLV paths are judged on points of the order-r subgroup (the Projective type's invariant); curve crates' GLV parameters are C16"],
     },
     "C09": {
-        "modules": ["Ark.Props.C09", "Ark.Props.C09b", "Ark.Props.C10b"],
+        "modules": ["Ark.Props.C09", "Ark.Props.C09b", "Ark.Props.C10b", "Ark.Props.C09c"],
         "extra_streams": [{"crate": "harness2", "bin": "c10x"}],
         "rule": "one op line per (type, mode, value) round trip or uniqueness probe; distinct = distinct op line; non-trivial = value outside {0,1}",
         "exhaustive": ["every byte string of the serialized size for the toy fields and toy curves"],
@@ -61,14 +61,14 @@ PROPS = {
         "assumptions": ["fork-join determinism of safe Rust / rayon"],
     },
     "C08": {
-        "modules": ["Ark.Props.C08a", "Ark.Props.C08b"],
+        "modules": ["Ark.Props.C08a", "Ark.Props.C08b", "Ark.Props.C08c"],
         "rule": "one op line per polynomial operator on a pair of operands; distinct = distinct op line; non-trivial = some operand of length > 1",
         "exhaustive": ["all canonical dense pairs of length <= 3 over F_5 (<= 4 thorough) for the core ops"],
         "partial": [],
         "assumptions": ["FFT-based multiplication is modelled as naive multiplication + the code's normalisation (FFT correctness is C07)"],
     },
     "C18": {
-        "modules": ["Ark.Props.C18"],
+        "modules": ["Ark.Props.C18", "Ark.Props.C18b"],
         "rule": "one op line per (type, value) serialization or (type, byte string) deserialization; distinct = distinct op line; non-trivial = non-empty payload",
         "exhaustive": [],
         "partial": ["the actual abort on allocation failure is a runtime behaviour observed only by the harness (child process under a memory limit); the model records allocation events and the theorems bound them"],
@@ -82,7 +82,7 @@ PROPS = {
         "assumptions": ["group with NEGATION_IS_CHEAP = false is a harness wrapper (no shipped group has it)", "big-integer scalars >= 2^(c*ceil(bits/c)) are outside the property's scalar domain (verdict note)"],
     },
     "C13": {
-        "modules": ["Ark.Props.C13", "Ark.Props.C13b"],
+        "modules": ["Ark.Props.C13", "Ark.Props.C13b", "Ark.Props.C13c"],
         "gen_from": "C16",
         "rule": "one op line per expander / hash_to_field / map_to_curve / hash call; distinct = distinct op line; non-trivial = non-empty message or u outside {0,1}",
         "exhaustive": ["all u of the toy SWU (F_127, F_49), WB and Elligator (F_101, F_127) configurations"],
@@ -110,14 +110,14 @@ PROPS = {
         "assumptions": ["Hash is observed through a recording Hasher (byte streams of write* calls)", "SW Affine values with infinity=true and non-zero placeholder coordinates are constructible only through doc(hidden) public fields and are outside the quantifier (ops *.raw, verdict note)"],
     },
     "C07": {
-        "modules": ["Ark.Props.C07a", "Ark.Props.C07b"],
+        "modules": ["Ark.Props.C07a", "Ark.Props.C07b", "Ark.Props.C07c"],
         "rule": "one op line per domain construction / element / transform / vanishing / Lagrange evaluation; distinct = distinct op line; non-trivial = size > 1 or non-trivial operands",
         "exhaustive": ["every coefficient vector over F_3, F_5, F_7 for the small domains; every input length 0..=size for sizes <= 32"],
         "partial": [],
         "assumptions": ["only serial code paths (parallel is C14)", "filter polynomials are outside the property statement (verdict note)"],
     },
     "C02": {
-        "modules": ["Ark.Props.C02a", "Ark.Props.C02b"],
+        "modules": ["Ark.Props.C02a", "Ark.Props.C02b", "Ark.Props.C02c"],
         "rule": "one op line per extension-field operation on a tower configuration (shipped bls12_381 Fq2/Fq6/Fq12, mnt6_753 Fq3, toy Fp2/Fp3/Fp4/Fp6/Fp12 towers); distinct = distinct op line; non-trivial = some coordinate outside {0,1}",
         "exhaustive": ["all ordered pairs of toy Fp2 over F_3, F_5, F_7 (beta=-1 and beta=3); all elements of toy Fp3 over F_7, F_13 and Fp4 over F_5; complete cyclotomic subgroups of the toy towers"],
         "partial": [],
@@ -145,7 +145,7 @@ PROPS = {
         "assumptions": ["num_vars < 64 (1 << num_vars does not wrap)"],
     },
     "C01": {
-        "modules": ["Ark.Props.C01a", "Ark.Props.C01b", "Ark.Props.C01c", "Ark.Props.C01d", "Ark.Props.C01e", "Ark.Props.C01f", "Ark.Props.FieldOpsGeneric"],
+        "modules": ["Ark.Props.C01a", "Ark.Props.C01b", "Ark.Props.C01c", "Ark.Props.C01d", "Ark.Props.C01e", "Ark.Props.C01f", "Ark.Props.FieldOpsGeneric", "Ark.Props.C01g"],
         "rule": "one op line per field operation on a configuration of the zoo (N=1..13 limbs, with/without spare bit, "
                 "derived and trait-default arithmetic, shipped test-curve fields); operands are raw Montgomery residues; "
                 "distinct = distinct op line; non-trivial = some operand outside {0,1}",
@@ -155,7 +155,7 @@ PROPS = {
                         "decimal FromStr/Display go through num-bigint (trusted)"],
     },
     "C15": {
-        "modules": ["Ark.Props.C15", "Ark.Props.C15a", "Ark.Props.C15b"],
+        "modules": ["Ark.Props.C15", "Ark.Props.C15a", "Ark.Props.C15b", "Ark.Props.C15c"],
         "rule": "one op line per BigInt<N> operation (N=1..13); distinct = distinct canonical op line; "
                 "non-trivial = some operand outside {0,1}",
         "exhaustive": ["find_naf / find_relaxed_naf / find_wnaf(w=2..7) / signed_mod_reduction on every 8-bit value (N=1)"],
